@@ -1,4 +1,4 @@
-\* C14 family (quick): lifetime, deadlines, fast close, reclamation.  2 clients, DNS / non-DNS targets, ticks
+\* negative control: onWrite with its two steps swapped (deadline extended BEFORE the fast-close latch is disarmed): TLC must find FastCloseRule violated (a port-53 reply read in between moves the deadline earlier)
 SPECIFICATION Spec
 CONSTANTS
   Clients = {1, 2}
@@ -11,7 +11,7 @@ CONSTANTS
   DnsPort = {2, 6}
   Allowed = {1, 2, 3}
   Unsendable = {3}
-  DisarmFirst = TRUE
+  DisarmFirst = FALSE
   Fam <- MCFam
   DgAlpha <- DgC14
   RpAlpha <- RpC14
@@ -27,7 +27,6 @@ CONSTANTS
   Slack = 0
   Bound = 0
   ZonedPanics = FALSE
-INVARIANTS TypeOK MechNat DeadlineMonotone WriteExtends NoEarlyRemoval NoEarlyClose RemoveOnce ReclaimedInTime CloseOnce FastCloseRule Usable AllReclaimed ShutdownReclaimed OnePerClient MetricsLanguage NoCrash HandleTotal
-PROPERTIES FailureIsolated
+INVARIANTS FastCloseRule
 VIEW View
 CHECK_DEADLOCK FALSE
